@@ -40,6 +40,13 @@ def check(run):
     bits_rule(run, repo)
     for rel_ in (K.PY_S, K.TC_S):
         combine_site(run, repo, repo.func(rel_, 'StabilizerState.density_matrix'))     # strings and signs of the same active rows
+    # the exported density matrix is built from the exported stabilizers: Pauli / PauliList to_qutip letters and i^p
+    from .C15 import qutip_export, FIELDS as _F15
+    for pkg_ in ('pyclifford', 'torchclifford'):
+        for cn_ in ('Pauli', 'PauliList'):
+            c_ = repo.find_cls(pkg_, cn_)
+            if c_ is not None and 'to_qutip' in c_.methods:
+                qutip_export(run, c_.methods['to_qutip'], _F15[cn_])
     # stabilizer_state parses its input through paulis(): the one reader, signs included
     from .C20 import second_readers
     for prel_ in (K.PY_P, K.TC_P):
